@@ -48,7 +48,17 @@ partial def jsJson (pfx : String) : JS → Option String
 
 def closureFuel (ss : Schemas) : Nat := Schemas.objectCount ss + 2
 
-def anyPanics (ss : Schemas) : Bool := ss.any fun s => s.objects.any fun kv => emitPanics kv.2.ty
+/-- the objects `GenerateSchema` formats for schema `s`: its own, then round by round the queued
+    foreign ones (within the fuel) -/
+def laterObjs (ss : Schemas) (pkg : String) : Nat → Pending → List Obj
+  | 0, _ => []
+  | f + 1, pend =>
+    if pend.isEmpty then []
+    else pend.map (·.2) ++ laterObjs ss pkg f (runObjs ss pkg (pend.map (·.2)) ([], [])).2
+
+/-- a Go panic while formatting one of them (nil payload of a Kind, `Args[0]` of an empty argument list) -/
+def anyPanics (ss : Schemas) (s : Schema) : Bool :=
+  (schemaObjs s ++ laterObjs ss s.pkg (Schemas.objectCount ss + 2) (firstRound ss s).2).any fun o => emitPanics o.ty
 
 def findSchema (ss : Schemas) (pkg : String) : Option Schema := ss.find? (fun s => s.pkg == pkg)
 
@@ -61,7 +71,7 @@ def jsemitLine (rest : String) : IO String := do
       match findSchema ss pkg with
       | none => return "nopkg"
       | some s =>
-        if anyPanics ss then return "panic" else
+        if anyPanics ss s then return "panic" else
         let doc := if kind == "oa" then emitOA (closureFuel ss) ss s else emitJS (closureFuel ss) ss s
         match doc with
         | none => return "hang"
